@@ -218,6 +218,24 @@ func suiteValidateX(e *emitter, depth int) {
 			}
 		}
 	})
+	// many violations in one field (an error tree far wider than usual), and a scheme one byte over the maximum
+	var manyBad []string
+	for i := 0; i < 300; i++ {
+		manyBad = append(manyBad, "bad name "+strconv.Itoa(i))
+	}
+	for _, k := range []int{63, 64, 65, 100, 256, 257, 300} {
+		c := base()
+		c.RequestHeaders = manyBad[:k]
+		validateCase(e, c)
+		c = base()
+		c.ResponseHeaders = manyBad[:k]
+		c.MaxAgeInSeconds = -7
+		validateCase(e, c)
+	}
+	for _, k := range []int{63, 64, 65, 66} {
+		c := cors.Config{Origins: []string{strings.Repeat("s", k) + "://example.com"}}
+		validateCase(e, c)
+	}
 	for _, ma := range []int{0, -1, -2, 1, 5, 86400, 86401} {
 		for _, st := range []int{0, 199, 200, 204, 299, 300, 456, 200 + 256, -56} {
 			c := base()
